@@ -62,6 +62,8 @@ static char *check_one(int dec, int mf, const char *custom, const char *name) {
 	if (!obs_seen[dec][mf][ci][rk]++) printf("OBS %s/%s/S=%s:%s\n", dec ? "decompress" : "compress", MFNAME[mf], cs(custom), rk == MS_TARGET ? "target" : rk == MS_SKIP_ALREADY ? "skip-already-suffixed" : "skip-unknown-suffix");
 	if (dumping) printf("MAP %s %d %s %s => %d %s | model %d %s\n", dec ? "d" : "c", mf, cs(custom), name, rk, rout ? rout : "-", mk, mk == MS_TARGET ? mout : "-");
 	replay_json(rj, sizeof rj, dec, mf, custom, name);
+	if (sample_ok && !dumping && custom && rk == mk && obs_seen[dec][mf][ci][rk] == 1 && mf == MF_LZMA && ci == 3)
+		printf("SAMPLE %s -F lzma -S %s '%s' -> %s%s (model agrees)\n", dec ? "decompress" : "compress", custom, name, rk == MS_TARGET ? "target " : rk == MS_SKIP_ALREADY ? "skipped: already suffixed" : "skipped: unknown suffix", rk == MS_TARGET ? rout : "");
 	if (rk != mk)
 		h_fail(dec ? (rk == MS_TARGET ? "naming:decompress:accepted-unknown-suffix" : "naming:decompress:refused-known-suffix")
 			   : (rk == MS_TARGET ? "naming:compress:accepted-already-suffixed" : "naming:compress:refused-unsuffixed"),
@@ -96,7 +98,7 @@ static void do_name(const char *custom, const char *name) {
 				if (!u || strcmp(u, name) != 0)
 					h_fail("naming:inversion", "compress -F %s -S %s '%s' -> '%s'; decompress -F %s -> '%s' (must give the original name) replay=%s",
 					       MFNAME[cfm[f]], cs(custom), name, t, MFNAME[dfm[k]], u ? u : "(skipped)", rj);
-			} else if (cls == 1) { inv_shadow++; if (inv_shadow <= 3 && !dumping && sample_ok) printf("SAMPLE documented shadowing: -S %s '%s' -> '%s' -> '%s'\n", custom, name, t, u ? u : "(skipped)"); }
+			} else if (cls == 1) { inv_shadow++; if (inv_shadow <= 1 && !dumping && sample_ok) printf("SAMPLE documented shadowing: -S %s '%s' -> '%s' -> '%s'\n", custom, name, t, u ? u : "(skipped)"); }
 			else {
 				inv_tar++;
 				char tarred[600]; snprintf(tarred, sizeof tarred, "%s.tar", name);
@@ -143,7 +145,7 @@ int main(int argc, char **argv) {
 			if (suffix_is_set()) h_fail("naming:invalid-suffix-accepted", "a rejected suffix became the custom suffix replay={\"harness\":\"c19_suffix\",\"badsuffix\":\"%s\"}", bad[i]); }
 	}
 	long names = 0;
-	sample_ok = shard == 0;
+	sample_ok = shard % 4 == 1;	// (the shard number correlates with the last letters of the names)
 	for (int ci = 0; ci < NCUSTOM && !h_expired(); ci++) {
 		const char *custom = CUSTOM[ci];
 		if (custom) suffix_set(custom);	// (there is no way back to "no custom suffix", hence none comes first)
